@@ -16,6 +16,9 @@ def norm_s(f, n, T):
             return 'sizeof(T)'
         return str(n.get('v'))
     if k == 'DeclRefExpr':
+        env = f.__dict__.get('_wr_env')
+        if env and n['n'] in env:
+            return str(env[n['n']][1])           # parameter of a helper spliced into its caller: stands for the argument
         sub = _temps(f).get(n['n'])
         if sub is not None:
             d, ops, pos, al = sub
@@ -45,10 +48,46 @@ def norm_s(f, n, T):
     if k == 'CallExpr':
         return '%s(%s)' % (norm_s(f, K[0], T), ', '.join(norm_s(f, a, T) for a in K[1:]))
     if k == 'ConditionalOperator':
+        cv = _cond_const(f, K[0])
+        if cv is not None:
+            return norm_s(f, K[1] if cv else K[2], T)
         return '(%s ? %s : %s)' % (norm_s(f, K[0], T), norm_s(f, K[1], T), norm_s(f, K[2], T))
     if k == 'ParenExpr':
         return norm_s(f, K[0], T)
     return f.s(n)
+
+
+def _cond_const(f, n):
+    """value of a condition that is a folded constant, or a parameter bound to a constant argument by a spliced call (also `!p`, `p == c`, `p != c`)"""
+    if isinstance(n, int):
+        n = f.N[n]
+    if n.get('v') is not None:
+        return n['v']
+    env = f.__dict__.get('_wr_env') or {}
+    u = f.unwrap(n)
+    if u.get('k') == 'DeclRefExpr' and u['n'] in env and env[u['n']][0] == 'const':
+        return env[u['n']][1]
+    if u.get('k') == 'UnaryOperator' and u.get('op') == '!':
+        v = _cond_const(f, u['kids'][0])
+        return None if v is None else int(not v)
+    if u.get('k') == 'BinaryOperator' and u.get('op') in ('==', '!='):
+        a, b = _cond_const(f, u['kids'][0]), _cond_const(f, u['kids'][1])
+        if a is not None and b is not None:
+            return int((a == b) == (u['op'] == '=='))
+    return None
+
+
+def _tail_helper(f, c):
+    """`return helper (args)` where helper is a static function of the same file: (helper, call) or None"""
+    if c['k'] != 'ReturnStmt' or not c.get('kids') or getattr(f, 'prog', None) is None:
+        return None
+    e = f.unwrap(f.N[c['kids'][0]])
+    if e.get('k') != 'CallExpr':
+        return None
+    gs = f.prog.fns.get(e.get('callee') or '', [])
+    if len(gs) == 1 and gs[0].static and gs[0].file == f.file and gs[0].name != f.name and len(list(gs[0].walk())) < 600 and not gs[0].__dict__.get('_wr_noinline'):
+        return gs[0], e
+    return None
 
 
 def _temps(f):
@@ -91,6 +130,26 @@ def sheet(f, T, n=None):
     if k == 'CompoundStmt':
         out = []
         for c in f.kids(n):
+            th = _tail_helper(f, c)
+            if th is not None:
+                # the tail of the function was moved into a helper (possibly shared with a sibling and steered by a constant flag): the helper's sheet,
+                # with its parameters standing for the arguments and branches on constant arguments resolved, takes the place of the return
+                g, call = th
+                env = {}
+                for p_, a_ in zip(g.params, f.args(call)):
+                    an = f.N[a_] if isinstance(a_, int) else a_
+                    cv = _cond_const(f, an)
+                    env[p_['n']] = ('const', cv) if cv is not None else ('str', norm_s(f, an, T))
+                g.__dict__['_wr_noinline'] = True
+                old_env = g.__dict__.get('_wr_env')
+                g.__dict__['_wr_env'] = env
+                try:
+                    hs = sheet(g, T)
+                finally:
+                    g.__dict__['_wr_noinline'] = False
+                    g.__dict__['_wr_env'] = old_env
+                out.extend(hs if isinstance(hs, list) and (not hs or isinstance(hs[0], list)) else [hs])
+                continue
             # statements extracted into a static helper of the same file still count at the place of the call: the helper's sheet goes in front
             if c['k'] in ('IfStmt', 'CallExpr', 'BinaryOperator', 'ReturnStmt') and getattr(f, 'prog', None) is not None and not f.__dict__.get('_wr_noinline'):
                 root = f.N[c['cond']] if c['k'] == 'IfStmt' else c
@@ -109,11 +168,30 @@ def sheet(f, T, n=None):
                 out.append(s)
         return out
     if k == 'IfStmt':
-        cv = f.N[n['cond']].get('v')
+        cv = _cond_const(f, n['cond'])
         if cv == 0 and 'else' not in n:
             return None          # if (0) ... : dead (macro argument), takes part in no fact
+        if cv == 0:
+            return sheet(f, T, n['else'])
         if cv is not None and cv != 0:
             return sheet(f, T, n['then'])
+        if 'else' not in n:
+            # `if (a) if (b) X` and `if (a && b) X` are one thing
+            inner = f.N[n['then']] if isinstance(n['then'], int) else n['then']
+            while inner['k'] == 'CompoundStmt' and len([x for x in f.kids(inner) if x['k'] != 'NullStmt']) == 1:
+                inner = [x for x in f.kids(inner) if x['k'] != 'NullStmt'][0]
+            if inner['k'] == 'IfStmt' and 'else' not in inner and _cond_const(f, inner['cond']) is None:
+                isub = sheet(f, T, inner)
+                if isinstance(isub, list) and isub and isub[0] == 'if' and len(isub) == 3:
+                    return ['if', '(%s && %s)' % (norm_s(f, n['cond'], T), isub[1]), isub[2]]
+        if 'else' in n:
+            # `if (a > b) Y else X` is `if (a <= b) X else Y`: two-armed tests are oriented towards <=, <, ==
+            cu = f.unwrap(f.N[n['cond']] if isinstance(n['cond'], int) else n['cond'])
+            neg = {'>': '<=', '>=': '<', '!=': '=='}
+            if cu.get('k') == 'BinaryOperator' and cu.get('op') in neg:
+                return ['if', '(%s %s %s)' % (norm_s(f, cu['kids'][0], T), neg[cu['op']], norm_s(f, cu['kids'][1], T)), sheet(f, T, n['else']), sheet(f, T, n['then'])]
+            if cu.get('k') == 'UnaryOperator' and cu.get('op') == '!':
+                return ['if', norm_s(f, cu['kids'][0], T), sheet(f, T, n['else']), sheet(f, T, n['then'])]
         r = ['if', norm_s(f, n['cond'], T), sheet(f, T, n['then'])]
         if 'else' in n:
             r.append(sheet(f, T, n['else']))
